@@ -166,6 +166,12 @@ impl Geo {
     }
 }
 
+/// Zero-length datagrams carry no id: the drivers keep at most one of them per
+/// source port in flight, so a zero-length packet seen on a link or handed to a
+/// host is the most recent zero-length send from that (model) source port.
+/// port -> (datagram id, sender host)
+type ZLast = BTreeMap<u16, (u64, usize)>;
+
 struct Shared {
     geo: Geo,
     cmds: Vec<VecDeque<Cmd>>, // index = host
@@ -362,6 +368,7 @@ struct Run<'a> {
     shared: Rc<RefCell<Shared>>,
     notifies: Vec<Rc<Notify>>,
     geo: Geo,
+    zl: ZLast,
 }
 
 impl<'a> Run<'a> {
@@ -413,7 +420,7 @@ impl<'a> Run<'a> {
         sim.step().expect("warm-up step");
         rec::take();
         rec::emit(json!({"ev":"reset","n":cfg.n,"cap":cfg.cap}));
-        Run { sim, shared, notifies, geo }
+        Run { sim, shared, notifies, geo, zl: ZLast::new() }
     }
 
     /// one Sim::step with the given per-host scripts (hosts with a script are woken)
@@ -435,13 +442,17 @@ impl<'a> Run<'a> {
     fn links(&self) -> Vec<(u64, usize, u16)> {
         let mut out = Vec::new();
         let geo = &self.geo;
+        let zl = &self.zl;
         self.sim.links(|links| {
             for link in links {
                 for sent in link {
-                    let (_src, dst) = sent.pair();
+                    let (src, dst) = sent.pair();
                     let s = format!("{}", sent.protocol());
                     let bytes = util::parse_hex_payload(&s).unwrap_or_default();
-                    let id = bytes.first().copied().unwrap_or(0) as u64;
+                    let id = match bytes.first() {
+                        Some(b) => *b as u64,
+                        None => zl.get(&geo.model_port(src.port())).map(|x| x.0).unwrap_or(0),
+                    };
                     out.push((id, geo.host_of(dst.ip()), geo.model_port(dst.port())));
                 }
             }
@@ -459,6 +470,7 @@ impl<'a> Run<'a> {
     /// SentRef::deliver on the copy of datagram id addressed to (t, p)
     fn manual(&mut self, id: u64, t: usize, p: u16) -> bool {
         let geo = &self.geo;
+        let zl = &self.zl;
         let mut hit = false;
         self.sim.links(|links| {
             for link in links {
@@ -466,10 +478,13 @@ impl<'a> Run<'a> {
                     if hit {
                         continue;
                     }
-                    let (_src, dst) = sent.pair();
+                    let (src, dst) = sent.pair();
                     let s = format!("{}", sent.protocol());
                     let bytes = util::parse_hex_payload(&s).unwrap_or_default();
-                    let sid = bytes.first().copied().unwrap_or(0) as u64;
+                    let sid = match bytes.first() {
+                        Some(b) => *b as u64,
+                        None => zl.get(&geo.model_port(src.port())).map(|x| x.0).unwrap_or(0),
+                    };
                     if sid == id && geo.host_of(dst.ip()) == t && geo.model_port(dst.port()) == p {
                         sent.deliver();
                         hit = true;
@@ -502,7 +517,7 @@ impl<'a> Run<'a> {
 /// `Send` tracing events between send_begin/send_end are folded into the
 /// `send` record (the copies put on links), every `Delivered` event becomes an
 /// `arrive` event.
-fn postprocess(raw: Vec<Value>, geo: &Geo, sid_host: &[usize]) -> Vec<Value> {
+fn postprocess(raw: Vec<Value>, geo: &Geo, sid_host: &[usize], zl: &mut ZLast) -> Vec<Value> {
     let mut out = Vec::new();
     let mut cur_send: Option<Value> = None;
     for e in raw {
@@ -527,11 +542,16 @@ fn postprocess(raw: Vec<Value>, geo: &Geo, sid_host: &[usize]) -> Vec<Value> {
                     "Delivered" => {
                         if let (Some(src), Some(dst)) = (src, dst) {
                             let bytes = util::parse_hex_payload(proto).unwrap_or_default();
-                            let id = bytes.first().copied().unwrap_or(0) as u64;
-                            let ssid = bytes.get(1).copied().unwrap_or(0) as usize;
+                            // zero-length: the most recent zero-length send from that source port
+                            let z = zl.get(&geo.model_port(src.port())).copied().unwrap_or((0, 0));
+                            let id = bytes.first().map(|b| *b as u64).unwrap_or(z.0);
+                            let shost = match bytes.get(1) {
+                                Some(b) => sid_host.get(*b as usize).copied().unwrap_or(0),
+                                None => z.1,
+                            };
                             let local = dst.ip().is_loopback() || src.ip() == dst.ip();
                             let (h, dk) = if dst.ip().is_loopback() {
-                                (sid_host.get(ssid).copied().unwrap_or(0), "lo")
+                                (shost, "lo")
                             } else {
                                 (geo.host_of(dst.ip()), "host")
                             };
@@ -543,6 +563,9 @@ fn postprocess(raw: Vec<Value>, geo: &Geo, sid_host: &[usize]) -> Vec<Value> {
                 }
             }
             "send_begin" => {
+                if e["len"] == json!(0) {
+                    zl.insert(e["p"].as_u64().unwrap() as u16, (e["id"].as_u64().unwrap(), e["h"].as_u64().unwrap() as usize));
+                }
                 cur_send = Some(json!({"ev":"send","id":e["id"],"h":e["h"],"p":e["p"],"sid":e["sid"],"dst":e["dst"],
                     "len":e["len"],"res":"?","nets":[]}));
             }
@@ -687,7 +710,7 @@ fn replay_one(line: &Value, cfg: &Cfg, full: bool) -> ReplayOut {
                 let hit = run.manual(id, t, p);
                 run.idle_step();
                 let raw = rec::take();
-                let pp = postprocess(raw.clone(), &run.geo, &run.shared.borrow().sid_host);
+                let pp = { let sh = run.shared.borrow().sid_host.clone(); postprocess(raw.clone(), &run.geo, &sh, &mut run.zl) };
                 let arrived = pp.iter().filter(|e| e["ev"] == "arrive").collect::<Vec<_>>();
                 let ok = hit && arrived.len() == 1 && arrived[0]["id"] == a["id"] && arrived[0]["h"] == a["h"] && arrived[0]["p"] == a["p"]
                     && arrived[0]["dk"] == "host";
@@ -731,7 +754,7 @@ fn replay_one(line: &Value, cfg: &Cfg, full: bool) -> ReplayOut {
                 let script: Vec<Cmd> = group.iter().map(|(_, c)| c.clone()).collect();
                 run.step(vec![(h, script)]);
                 let raw = rec::take();
-                let pp = postprocess(raw.clone(), &run.geo, &run.shared.borrow().sid_host);
+                let pp = { let sh = run.shared.borrow().sid_host.clone(); postprocess(raw.clone(), &run.geo, &sh, &mut run.zl) };
                 all_raw.extend(raw);
                 let evs: Vec<&Value> = pp.iter().filter(|e| !matches!(e["ev"].as_str().unwrap_or(""), "step" | "arrive")).collect();
                 if pp.iter().any(|e| e["ev"] == "arrive") {
@@ -759,7 +782,7 @@ fn replay_one(line: &Value, cfg: &Cfg, full: bool) -> ReplayOut {
                 if pending > 0 {
                     run.idle_step();
                     let raw = rec::take();
-                    let pp = postprocess(raw.clone(), &run.geo, &run.shared.borrow().sid_host);
+                    let pp = { let sh = run.shared.borrow().sid_host.clone(); postprocess(raw.clone(), &run.geo, &sh, &mut run.zl) };
                     all_raw.extend(raw);
                     let arrived: Vec<&Value> = pp.iter().filter(|e| e["ev"] == "arrive").collect();
                     let mut want = Vec::new();
@@ -800,10 +823,11 @@ fn replay_one(line: &Value, cfg: &Cfg, full: bool) -> ReplayOut {
             let script: Vec<Cmd> = (0..=want.len()).map(|k| Cmd::Recv { p, buf: 64, api: (k % 2) as u8 }).collect();
             run.step(vec![(h, script)]);
             let raw = rec::take();
-            let pp = postprocess(raw.clone(), &run.geo, &run.shared.borrow().sid_host);
+            let pp = { let sh = run.shared.borrow().sid_host.clone(); postprocess(raw.clone(), &run.geo, &sh, &mut run.zl) };
             all_raw.extend(raw);
+            // a zero-length datagram shows as 1000 + origin port
             let got: Vec<u64> = pp.iter().filter(|e| e["ev"] == "recv" && e["res"]["k"] == "data")
-                .map(|e| e["res"]["data"][0].as_u64().unwrap_or(0)).collect();
+                .map(|e| e["res"]["data"][0].as_u64().unwrap_or(1000 + e["res"]["o"]["p"].as_u64().unwrap_or(0))).collect();
             if !want.is_empty() {
                 has_data = true;
             }
@@ -816,7 +840,7 @@ fn replay_one(line: &Value, cfg: &Cfg, full: bool) -> ReplayOut {
     if full {
         finalize(&mut run, &mut all_raw);
     }
-    let trace = postprocess(all_raw, &run.geo, &run.shared.borrow().sid_host);
+    let trace = postprocess(all_raw, &run.geo, &run.shared.borrow().sid_host, &mut ZLast::new());
     ReplayOut { divergence, trace, nontrivial: has_fault && has_data }
 }
 
@@ -958,6 +982,8 @@ fn main_random(args: &[String]) {
             let mut run = Run::new(&cfg);
             let mut raw: Vec<Value> = rec::take();
             let mut sent = 0u64;
+            let mut zero_last: BTreeMap<u16, u64> = BTreeMap::new();
+            let zwin = cfg.gmax / cfg.tick + 12; // covers a script delayed by blocked receives + the latency
             for s in 0..steps {
                 let mut per: Vec<(usize, Vec<Cmd>)> = Vec::new();
                 for h in 1..=n {
@@ -1043,7 +1069,16 @@ fn main_random(args: &[String]) {
                             // bursts make receivers slower than senders
                             let burst = if rng.random_bool(0.25) { rng.random_range(2..=4) } else { 1 };
                             for _ in 0..burst {
-                                cmds.push(Cmd::Send { p, dst: dst.clone(), len: rng.random_range(2..=9), api: rng.random_range(0..2) });
+                                // zero-length datagrams: at most one per source port in flight (they carry
+                                // no id), so a new one only after every earlier one must have arrived
+                                let zero_ok = zero_last.get(&p).map(|t| s >= *t + zwin).unwrap_or(true);
+                                let len = if zero_ok && rng.random_bool(0.25) {
+                                    zero_last.insert(p, s);
+                                    0
+                                } else {
+                                    rng.random_range(2..=9)
+                                };
+                                cmds.push(Cmd::Send { p, dst: dst.clone(), len, api: rng.random_range(0..2) });
                                 sent += 1;
                                 nsend += 1;
                             }
@@ -1084,7 +1119,7 @@ fn main_random(args: &[String]) {
                 rec::emit(json!({"ev":"quiesce"}));
                 raw.extend(rec::take());
             }
-            all.extend(postprocess(raw, &run.geo, &run.shared.borrow().sid_host));
+            all.extend(postprocess(raw, &run.geo, &run.shared.borrow().sid_host, &mut ZLast::new()));
         }
     });
     util::write_ndjson(&out, &all);
